@@ -35,6 +35,18 @@ case = {'cfg': {...}, 'ops': [[op, arg?]...], 'kind': str, 'model': bool (defaul
        | breakwrites 0|1       from now on writes of the client to the server fail (1: the transport is already gone,
                                wait_closed() does not suspend); the loss is noticed by whichever task of the LIBRARY
                                writes next: the keep-alive (`tick 601`) or the wishlist job (`wl`)   (monitor only)
+       | parent name L R       (round 5) the server names a potential parent `name` that ACCEPTS the connection; when
+                               the connection stands the peer announces branch level L and, unless L = 0, branch root
+                               R: it becomes the distributed parent (needs the server reader, `debug.search_for_parent`
+                               and no parent yet).  The parent is a PEER connection: it survives a loss of the server
+                               connection, every later login has to announce the position the client has then
+       | plevel L | proot R    the parent announces a new level / root   | ploss   the parent's connection closes
+       | child | closs         a peer connects to the clear listening port (PeerInit, type D) and becomes a child (at
+                               most 5) / the oldest child's connection closes
+       | rescan n              the application brings the first shared directory to n extra files and calls
+                               shares.scan(): the index changes between logins
+Live distributed peers keep talking (a DistributedPing every 20 s of virtual time, ignored by the library) so that
+the 60 s read timeout of peer connections does not end them.
 An operation that is not applicable in the current state (e.g. `populate` without a reader) is skipped on
 both sides (`inv=1`); applicability is the same predicate on both sides.
 
@@ -58,6 +70,9 @@ from vlib.common import KResult, Violation, Disagreement, Property
 
 SERVER_PORT = 2416
 PP_ADDR = ('9.9.9.9', 1234)
+PARENT_ADDR = ('9.9.8.8', 2234)   # potential parents that accept the connection (`parent` op)
+MAX_CHILDREN = 5                  # DistributedNetwork._max_children before any GetUserStats answer
+PEER_TALK_INTERVAL = 20.0         # a live distributed peer is never silent for PEER_READ_TIMEOUT (60 s)
 REQUEST_TIMEOUT = 100000          # search request timers never expire inside a scenario
 WISHLIST_INTERVAL = 100000
 HOUR_TICKS = 7200
@@ -107,6 +122,14 @@ def _expected_stats(cfg: dict) -> tuple[int, int]:
     return cfg['ndirs'], cfg['ndirs'] * cfg['fpd']
 
 
+def _stats_after(cfg: dict, extra: int) -> tuple[int, int]:
+    """share counts once the application has put `extra` more files into the first shared directory and scanned
+    again (every directory is indexed then, whether or not there was a scan at start())"""
+    if cfg['fpd'] == 0:
+        return (1, extra) if extra else (0, 0)
+    return cfg['ndirs'], cfg['ndirs'] * cfg['fpd'] + extra
+
+
 def _cfg_line(cfg: dict) -> str:
     def lst(x):
         return ','.join(x) if x else '-'
@@ -143,8 +166,13 @@ def _model_lines(case: dict) -> list[str]:
     lines = [_cfg_line(case['cfg'])]
     for op in case['ops']:
         k = op[0]
-        if k in ('logincut', 'loss', 'tick', 'srvreply', 'lossheld', 'lossrec'):
+        if k in ('logincut', 'loss', 'tick', 'srvreply', 'lossheld', 'lossrec', 'plevel', 'proot'):
             lines.append(f'{k} {op[1]}')
+        elif k == 'parent':
+            lines.append(f'parent {op[1]} {op[2]} {op[3]}')
+        elif k == 'rescan':
+            d, f = _stats_after(case['cfg'], op[1])
+            lines.append(f'rescan {d} {f}')
         elif k == 'srvup':
             lines.append(f'srvup {int(op[1])}')
         elif k == 'loginat':
@@ -166,10 +194,12 @@ class _Server:
         self.mode = 'accepted'
         self.received: list = []
         self.writers: list = []
+        self.pos: dict = {}            # connection index -> [level, root, searching] as last told on that connection
 
     async def handler(self, reader, writer):
         m = self.m
         self.writers.append(writer)
+        idx = len(self.writers) - 1
         while True:
             try:
                 hdr = await reader.readexactly(4)
@@ -183,6 +213,12 @@ class _Server:
                 self.received.append(None)
                 continue
             self.received.append(msg)
+            if isinstance(msg, m.BranchLevel.Request):
+                self.pos.setdefault(idx, [None, None, None])[0] = msg.level
+            elif isinstance(msg, m.BranchRoot.Request):
+                self.pos.setdefault(idx, [None, None, None])[1] = msg.username
+            elif isinstance(msg, m.ToggleParentSearch.Request):
+                self.pos.setdefault(idx, [None, None, None])[2] = int(bool(msg.enable))
             if writer.is_closing():
                 continue
             if isinstance(msg, m.Login.Request):
@@ -307,6 +343,33 @@ def _run_impl(case: dict) -> dict:
             net.endpoints[PP_ADDR] = fakenet.Endpoint('delay', None, delay=cfg['peerdelay'] * 0.5)
         else:
             net.endpoints[PP_ADDR] = fakenet.Endpoint('hang')
+        # ---- distributed peers (round 5): a potential parent that accepts the connection, children that connect in
+        dist = {'parent': None, 'kids': [], 'nkids': 0, 'accepted': []}
+
+        async def parent_handler(reader, writer):
+            dist['accepted'].append(writer)
+
+        net.endpoints[PARENT_ADDR] = fakenet.Endpoint('accept', parent_handler)
+
+        async def feeder(w):
+            # the remote end of a distributed connection keeps talking (a parent relays searches all the time): a
+            # DistributedPing every 20 s, which the library ignores
+            while not (w._closed or getattr(w, '_peer_gone', False)):
+                await asyncio.sleep(PEER_TALK_INTERVAL)
+                if w._closed or getattr(w, '_peer_gone', False):
+                    break
+                w.write(m.DistributedPing.Request().serialize())
+
+        def lib_side(remw):
+            return next(a for a, b in net.pairs if b is remw)
+
+        def parent_open():
+            p = dist['parent']
+            return p is not None and not p['w']._closed and not p['lib']._closed
+
+        def open_kids():
+            return [k for k in dist['kids'] if not k['w']._closed and not k['lib']._closed]
+
         if cfg['clearfail'] and cfg['clear']:
             net.bind_fail_ports.add(cfg['clear'])
         if cfg['obffail'] and cfg['obf']:
@@ -486,9 +549,14 @@ def _run_impl(case: dict) -> dict:
             dn = client.distributed_network
             params = any(v is not None for v in (dn.parent_min_speed, dn.parent_speed_ratio, dn.min_parents_in_cache,
                                                  dn.parent_inactivity_timeout, dn.distributed_alive_interval))
+            par = dn.parent
+            par_s = '-' if par is None else f'{par.username}/{par.branch_root}/{par.branch_level}'
+            told = srv.pos.get(len(srv.writers) - 1) if sconn.state == ConnectionState.CONNECTED else None
+            told_s = '-' if told is None else '/'.join('?' if v is None else str(v) for v in told)
             line = ('att={att} conn={conn} closed={closed} login={login} init={init} destr={destr} res={res} '
                     'exec={exe} fail={fail} inv={inv} frames={frames} | c={c} s={s} tasks={tasks} tracked={tracked} '
-                    'u={u} r={r} p={p} open={open}').format(
+                    'u={u} r={r} p={p} open={open} par={par} kids={kids} told={told}').format(
+                par=par_s, kids=len(dn.children), told=told_s,
                 att=len(srv_att) - marks['att'], conn=ev['conn'] - marks['conn'],
                 closed=','.join(ev['closed'][marks['closed']:]), login=logins,
                 init=ev['init'] - marks['init'], destr=ev['destr'] - marks['destr'], res=res, exe=exe, fail=fail,
@@ -499,7 +567,9 @@ def _run_impl(case: dict) -> dict:
                 r=int(len(client.rooms.rooms) > 0), p=int(params),
                 open=net.open_sockets() + len(net.listeners))
             extra = {'any_att': len(net.attempts) - marks['any_att'], 'other_frames': len(new_msgs) - len(frames) - logins,
-                     'held': held_sites(), 'login_in_progress': any(not t.done() for t in app_calls)}
+                     'held': held_sites(), 'login_in_progress': any(not t.done() for t in app_calls),
+                     # network truth: is any connection to a peer that announced itself as a parent still open?
+                     'parent_conn_open': parent_open()}
             marks.update(att=len(srv_att), recv=len(srv.received), init=ev['init'], destr=ev['destr'],
                          conn=ev['conn'], closed=len(ev['closed']), any_att=len(net.attempts))
             return line, extra
@@ -615,6 +685,64 @@ def _run_impl(case: dict) -> dict:
                         rr, rw = await net.connect_in(cfg['clear'], ('10.0.1.%d' % (nn % 250), 40000 + nn))
                         rw.write(m.PeerInit.Request(username=f'peer{nn}', typ='P', ticket=nn).serialize())
                         keep.append((rr, rw))
+            elif k == 'parent':
+                # the server names a potential parent op[1] that accepts the connection; once the connection stands
+                # the peer announces its place in the tree: level op[2] (and, unless 0, the branch root op[3])
+                if not reader_alive() or not cfg['sfp'] or parent_open() or flags['stopped']:
+                    inv = 1
+                else:
+                    name = op[1]
+                    n0 = len(dist['accepted'])
+                    srv.send(m.PotentialParents.Response(entries=[m.PotentialParent(
+                        username=name, ip=PARENT_ADDR[0], port=PARENT_ADDR[1])]))
+                    await simloop.settle()
+                    if len(dist['accepted']) != n0 + 1:
+                        fail = 1                    # the library did not connect to the potential parent
+                    else:
+                        w = dist['accepted'][-1]
+                        dist['parent'] = {'name': name, 'w': w, 'lib': lib_side(w)}
+                        keep.append(asyncio.ensure_future(feeder(w)))
+                        w.write(m.DistributedBranchLevel.Request(op[2]).serialize())
+                        if op[2] != 0:
+                            w.write(m.DistributedBranchRoot.Request(op[3]).serialize())
+            elif k in ('plevel', 'proot', 'ploss'):
+                if not parent_open():
+                    inv = 1
+                elif k == 'plevel':
+                    dist['parent']['w'].write(m.DistributedBranchLevel.Request(op[1]).serialize())
+                elif k == 'proot':
+                    dist['parent']['w'].write(m.DistributedBranchRoot.Request(op[1]).serialize())
+                else:
+                    dist['parent']['w'].close()
+            elif k == 'child':
+                if cfg['clear'] not in net.listeners or len(open_kids()) >= MAX_CHILDREN or flags['stopped']:
+                    inv = 1
+                else:
+                    nn = dist['nkids']
+                    dist['nkids'] += 1
+                    rr, rw = await net.connect_in(cfg['clear'], ('10.0.2.%d' % (nn % 250), 41000 + nn))
+                    rw.write(m.PeerInit.Request(username=f'kid{nn}', typ='D', ticket=nn).serialize())
+                    dist['kids'].append({'w': rw, 'r': rr, 'lib': lib_side(rw)})
+                    keep.append(asyncio.ensure_future(feeder(rw)))
+            elif k == 'closs':
+                if not open_kids():
+                    inv = 1
+                else:
+                    open_kids()[0]['w'].close()
+            elif k == 'rescan':
+                # the application brings the first shared directory to op[1] extra files and scans again
+                if not flags['started'] or flags['stopped'] or cfg['slowscan'] or not dirs:
+                    inv = 1
+                else:
+                    for j in range(op[1]):
+                        fn = os.path.join(dirs[0], f'extra{j}.txt')
+                        if not os.path.exists(fn):
+                            with open(fn, 'wb') as fh:
+                                fh.write(b'y' * 10)
+                    try:
+                        await client.shares.scan()
+                    except Exception:
+                        fail = 1
             elif k == 'breakwrites':
                 if not connected:
                     inv = 1
@@ -831,14 +959,30 @@ def _canon(case: dict, lines: list[str]) -> list[str]:
 # monitor: the property statement on the implementation trace (independent of the model)
 # --------------------------------------------------------------------------------------------
 
-def _expected_burst(cfg: dict) -> tuple[list[str], set[str]]:
-    """(frames that must be there exactly once — AddUser excluded, allowed optional AddUser names)"""
+def _position(cfg: dict, par: str) -> tuple[int, str, int]:
+    """The branch position (level, root, searching for a parent) of a client whose distributed parent is `par`
+    (`-` or `name/root/level` as the parent announced them): without a parent, or as the root of its own branch,
+    level 0 of its own branch; else one below the parent in the parent's branch.  Searching iff there is no parent
+    and `debug.search_for_parent`."""
+    if par in ('-', ''):
+        return 0, cfg['user'], int(cfg['sfp'])
+    _name, root, level = par.rsplit('/', 2)
+    if root == cfg['user']:
+        return 0, cfg['user'], 0
+    return int(level) + 1, root, 0
+
+
+def _expected_burst(cfg: dict, par: str = '-', extra: Optional[int] = None) -> tuple[list[str], set[str]]:
+    """(frames that must be there exactly once — AddUser excluded, allowed optional AddUser names); `par`: the
+    distributed parent the client has at this login (it survives a loss of the server connection); `extra`: files
+    the application has added to the shares (and scanned) since start()"""
     port = cfg['clear'] if cfg['clear'] and not cfg['clearfail'] else 0
     obf = cfg['obf'] if cfg['obf'] and not cfg['obffail'] else 0
-    d, f = _expected_stats(cfg)
+    d, f = _stats_after(cfg, extra) if extra is not None else _expected_stats(cfg)
+    level, root, searching = _position(cfg, par)
     want = [f'SetListenPort({port},{1 if obf else 0},{obf})', 'CheckPrivileges', 'SetStatus(2)', f'Shared({d},{f})',
-            f"ToggleInvites({int(cfg['invites'])})", 'BranchLevel(0)', f"BranchRoot({cfg['user']})",
-            f"ToggleParentSearch({int(cfg['sfp'])})"]
+            f"ToggleInvites({int(cfg['invites'])})", f'BranchLevel({level})', f'BranchRoot({root})',
+            f'ToggleParentSearch({searching})']
     want += [f'AddInterest({x})' for x in cfg['liked']] + [f'AddHated({x})' for x in cfg['hated']]
     if cfg['autojoin']:
         want += [f'JoinRoom({x})' for x in cfg['favs']]
@@ -870,6 +1014,7 @@ def _monitor(case: dict, impl: dict) -> list[Violation]:
 
     session = False
     inits = destrs = 0
+    rescanned: Optional[int] = None          # extra files in the index since the application's last scan
     stop_at = None
     # reconnect bookkeeping: after an unrequested loss, ticks seen and attempts seen
     pending_loss: Optional[dict] = None
@@ -902,7 +1047,10 @@ def _monitor(case: dict, impl: dict) -> list[Violation]:
         # ---- M1: the burst
         if op[0] in ('login', 'tick', 'logincut', 'loginat', 'loginrace', 'lossrec', 'loginslow') and n_init == 1 and session \
                 and (not closed or op[0] == 'lossrec'):
-            want, optional = _expected_burst(cfg)
+            # the position is the client's own account of its parent — unless no connection to a parent exists any
+            # more: then there is no parent, whatever the client has kept
+            par_now = row.get('par', '-') if ex.get('parent_conn_open', True) else '-'
+            want, optional = _expected_burst(cfg, par_now, rescanned)
             got = [f for f in row['frames'].split(';') if f]
             add_users = sorted(f[8:-1] for f in got if f.startswith('AddUser('))
             rest = sorted(f for f in got if not f.startswith('AddUser('))
@@ -910,13 +1058,19 @@ def _monitor(case: dict, impl: dict) -> list[Violation]:
                 missing = sorted(set(want) - set(rest))
                 extra = sorted(set(rest) - set(want))
                 kind = (missing + extra + ['multiplicity'])[0].split('(')[0]
+                at_login = f'; at this login the distributed parent is {par_now} (name/root/level)' \
+                    if kind in ('BranchLevel', 'BranchRoot', 'ToggleParentSearch') else \
+                    f'; the index holds {_stats_after(cfg, rescanned)} folders / files since the last scan' \
+                    if kind == 'Shared' and rescanned is not None else ''
                 add(f'C16-burst-mismatch:{kind}', f'after login (op #{i}) the server was not told exactly what the '
-                    f'settings say: missing {missing}, unexpected {extra}', sorted(rest), sorted(want))
+                    f'settings say: missing {missing}, unexpected {extra}{at_login}', sorted(rest), sorted(want))
             fr = sorted(set(cfg['friends']))
             if len(set(add_users)) != len(add_users) or not set(fr) <= set(add_users) or \
                     not set(add_users) <= set(fr) | optional:
                 add('C16-burst-mismatch:AddUser', f'AddUser frames after login (op #{i}): {add_users}', add_users,
                     f'every friend once: {fr} (own name optional)')
+        if op[0] == 'rescan' and not inv and row['fail'] == '0':
+            rescanned = op[1]
         # ---- M2: commands are refused without a session
         if op[0] == 'exec':
             if not had_session and row['exec'] != 'refused':
@@ -1060,10 +1214,16 @@ def _gen_case(rng: random.Random) -> dict:
     cfg = _gen_cfg(rng)
     kind = rng.choice(['idle-loss', 'idle-loss', 'burst-cut', 'login-variants', 'pending-work', 'reconnect',
                        'reconnect', 'early-stop', 'mixed', 'mixed', 'burst-break', 'burst-break', 'held-listener',
-                       'held-listener', 'app-reconnect'])
+                       'held-listener', 'app-reconnect', 'distributed', 'distributed', 'distributed', 'distributed'])
+    if kind == 'distributed':
+        # a parent can only be adopted with search_for_parent, children need the clear listening port
+        if rng.random() < 0.85:
+            cfg['sfp'] = True
+        if rng.random() < 0.8:
+            cfg.update(clear=60000, clearfail=False, mode='clear')
     ops: list[list] = []
     sh = {'up': True, 'reply': 'accepted', 'conn': False, 'sess': False, 'reader': False, 'wd': False, 'since': 0,
-          'held': 0}
+          'held': 0, 'par': False, 'npar': 0, 'kids': 0, 'extra': 0}
     blen = _burst_len(cfg)
     wl_used = False
 
@@ -1112,6 +1272,15 @@ def _gen_case(rng: random.Random) -> dict:
                     sh['conn'] = sh['wd'] = False
         elif k == 'release':
             sh['held'] = 0
+        elif k == 'parent':
+            if sh['reader'] and cfg['sfp'] and not sh['par']:
+                sh['par'] = True
+        elif k == 'ploss':
+            sh['par'] = False
+        elif k == 'child':
+            sh['kids'] = min(MAX_CHILDREN, sh['kids'] + 1)
+        elif k == 'closs':
+            sh['kids'] = max(0, sh['kids'] - 1)
         elif k == 'connect' and not sh['conn'] and sh['up']:
             sh['conn'] = True
             sh['wd'] = cfg['reconnect']
@@ -1131,8 +1300,35 @@ def _gen_case(rng: random.Random) -> dict:
     def idle():
         emit(['tick', rng.choice([1, 2, 4, 4, 7, 21, 22, 24, 45, 50])])
 
+    def dist():
+        """something happens in the distributed network: the server names a parent that accepts the connection, the
+        parent moves in the tree or goes away, a child comes or goes — with or without a session"""
+        c = rng.random()
+        if not sh['par'] and sh['reader'] and c < 0.6:
+            level = rng.choice([0, 0, 1, 3, 7])
+            root = rng.choice(['rootuser', 'rootuser', 'other', cfg['user']])
+            emit(['parent', f"par{sh['npar']}", level, root])
+            sh['npar'] += 1
+        elif sh['par'] and c < 0.25:
+            emit(['plevel', rng.choice([0, 1, 2, 5, 9])])
+        elif sh['par'] and c < 0.45:
+            emit(['proot', rng.choice(['rootuser', 'other', 'third', cfg['user']])])
+        elif sh['par'] and c < 0.6:
+            emit(['ploss'])
+        elif c < 0.9 or not sh['kids']:
+            emit(['child'])
+        else:
+            emit(['closs'])
+
     def work():
         nonlocal wl_used
+        if kind == 'distributed' and rng.random() < 0.6 or rng.random() < 0.06:
+            dist()
+            return
+        if cfg['ndirs'] and not cfg['slowscan'] and rng.random() < (0.12 if kind in ('distributed', 'reconnect') else 0.04):
+            sh['extra'] += rng.choice([1, 1, 2, 3])
+            emit(['rescan', sh['extra']])
+            return
         if not sh['reader']:
             emit([rng.choice(['search', 'exec', 'exec'])])
             return
@@ -1222,15 +1418,27 @@ def _gen_case(rng: random.Random) -> dict:
             emit(['exec'])
         if rng.random() < 0.15:
             loss()                                   # before login
-        for _ in range(rng.randint(2, 8)):
+        for _ in range(rng.randint(2, 8) + (3 if kind == 'distributed' else 0)):
             r = rng.random()
+            if kind == 'distributed' and (sh['par'] or sh['kids']) and r < 0.6:
+                # the point of this family: the server connection goes and comes back under a standing position
+                if sh['conn'] and sh['sess']:
+                    if r < 0.3:
+                        loss()
+                        continue
+                elif not sh['conn'] and sh['wd']:
+                    emit(['tick', rng.choice([21, 22, 24, 30])])
+                    continue
+                elif not sh['conn'] and sh['up']:
+                    emit(['connect'])
+                    continue
             if sh['conn'] and not sh['sess'] and not sh['reader'] and r < 0.7:
                 login()
             elif not sh['conn'] and not sh['wd'] and r < 0.5:
                 break                                # nothing more can happen
             elif not sh['conn'] and not sh['up'] and r < 0.5:
                 emit(['srvup', True])
-            elif r < 0.35:
+            elif r < 0.35 or (kind == 'distributed' and r < 0.5):
                 work()
             elif r < 0.6:
                 idle()
@@ -1330,15 +1538,16 @@ WITNESS_RESIDUAL = {'kind': 'directed-cut-before-users', 'cfg': _base_cfg(reconn
 EVENTS = ['stop', 'requested', 'timeout', 'unknown', 'eof', 'reset']
 
 
-def _break_sweep(cfg: dict, events: list[str], tag: str) -> list[dict]:
+def _break_sweep(cfg: dict, events: list[str], tag: str, pre: Optional[list] = None) -> list[dict]:
     """stop() / disconnect / loss at EVERY suspension point of login(): before the reply and in each awaited write
-    of the burst; afterwards time for the watchdog, a command, stop(), 1 h."""
+    of the burst; afterwards time for the watchdog, a command, stop(), 1 h.  `pre`: what happened before this login
+    (default: nothing but start() — a first login)."""
     out = []
     for pos in ['pre'] + list(range(_burst_len(cfg))):
         for ev in events:
             if pos == 'pre' and ev == 'eof':
                 continue                        # = `srvreply eof` + login
-            ops = [['start'], ['loginat', pos, ev]]
+            ops = list(pre or [['start']]) + [['loginat', pos, ev]]
             if ev == 'stop':
                 ops += [['srvup', True], ['tick', 44], ['exec'], ['tick', HOUR_TICKS]]
             else:
@@ -1404,6 +1613,90 @@ HELD = [
 ]
 
 
+# ---- round 5: logins that happen with distributed state surviving from before (a parent, children)
+def _dist_cases() -> list[dict]:
+    """The position in the distributed network is a matter of PEER connections: it survives a loss of the server
+    connection.  Every later login — the watchdog's, a manual one, one made inside the CLOSED event — must announce
+    the position the client has THEN."""
+    out = []
+    adopt = [['start'], ['login'], ['populate'], ['parent', 'par0', 3, 'rootuser']]
+    # an unrequested loss with each reason, the watchdog logs in again; then the parent goes away
+    for r in ('read_error', 'write_error', 'timeout', 'unknown'):
+        out.append({'kind': f'dist-relogin-{r}', 'cfg': _base_cfg(),
+                    'ops': adopt + [['child'], ['loss', r], ['tick', 22], ['exec'], ['ploss'], ['tick', 4]] + END})
+    # no reconnect after EOF / a requested disconnect: the application connects and logs in itself
+    for r in ('eof', 'requested'):
+        out.append({'kind': f'dist-manual-relogin-{r}', 'cfg': _base_cfg(reconnect=(r == 'eof')),
+                    'ops': adopt + [['loss', r], ['tick', 30], ['connect'], ['login'], ['exec'], ['plevel', 6]] + END})
+    # the places a parent can announce: root of its own branch (level 0), a branch whose root is the client itself
+    for lvl, root, tag in ((0, 'x', 'level0'), (2, 'me', 'own-root'), (7, 'other', 'deep')):
+        out.append({'kind': f'dist-relogin-{tag}', 'cfg': _base_cfg(),
+                    'ops': [['start'], ['login'], ['parent', 'par0', lvl, root], ['loss', 'read_error'], ['tick', 22],
+                            ['populate'], ['loss', 'timeout'], ['tick', 22]] + END})
+    # the parent moves / goes away / is replaced while there is no session: nothing can be sent then
+    out.append({'kind': 'dist-parent-moves-without-session', 'cfg': _base_cfg(),
+                'ops': adopt + [['loss', 'read_error'], ['plevel', 5], ['proot', 'other'], ['tick', 22], ['exec']] + END})
+    out.append({'kind': 'dist-parent-lost-without-session', 'cfg': _base_cfg(),
+                'ops': adopt + [['child'], ['loss', 'write_error'], ['ploss'], ['tick', 22], ['pp'],
+                                ['parent', 'par1', 1, 'other'], ['loss', 'unknown'], ['tick', 22]] + END})
+    out.append({'kind': 'dist-parent-becomes-root-without-session', 'cfg': _base_cfg(reconnect=False),
+                'ops': adopt + [['loss', 'requested'], ['plevel', 0], ['connect'], ['login'], ['proot', 'me'],
+                                ['loss', 'requested'], ['connect'], ['login']] + END})
+    # children only; no parent possible (search_for_parent off); no listening port for children
+    out.append({'kind': 'dist-children-only', 'cfg': _base_cfg(),
+                'ops': [['start'], ['child'], ['login'], ['child'], ['child'], ['loss', 'read_error'], ['closs'],
+                        ['tick', 22], ['child']] + END})
+    out.append({'kind': 'dist-no-parent-search', 'cfg': _base_cfg(sfp=False),
+                'ops': [['start'], ['login'], ['parent', 'par0', 3, 'rootuser'], ['child'], ['loss', 'read_error'],
+                        ['tick', 22]] + END})
+    out.append({'kind': 'dist-no-clear-port', 'cfg': _base_cfg(clear=0, mode='any'),
+                'ops': [['start'], ['login'], ['child'], ['parent', 'par0', 1, 'rootuser'], ['loss', 'timeout'],
+                        ['tick', 22]] + END})
+    # pending potential-parent connects are given up when a parent is adopted (both connect modes)
+    for race in (False, True):
+        out.append({'kind': 'dist-adopt-cancels-candidates' + ('-race' if race else ''), 'cfg': _base_cfg(race=race),
+                    'ops': [['start'], ['login'], ['pp'], ['pp'], ['sr'], ['tick', 2], ['parent', 'par0', 3, 'rootuser'],
+                            ['tick', 4], ['loss', 'read_error'], ['tick', 22], ['pp'], ['tick', 2]] + END})
+    # the CLOSED listener of the application reconnects and logs in inside the event; a suspended listener
+    for r in ('read_error', 'requested', 'timeout'):
+        out.append({'kind': f'dist-lossrec-{r}', 'cfg': _base_cfg(reconnect=False),
+                    'ops': adopt + [['child'], ['lossrec', r], ['exec'], ['plevel', 1], ['tick', 30]] + END})
+    out.append({'kind': 'dist-held-relogin', 'cfg': _base_cfg(),
+                'ops': adopt + [['lossheld', 'read_error', 'destr'], ['plevel', 4], ['tick', 22], ['release'],
+                                ['exec'], ['ploss']] + END})
+    # login rejected / garbled / answered by EOF first, then accepted: still the surviving parent
+    out.append({'kind': 'dist-relogin-after-rejected', 'cfg': _base_cfg(reconnect=False),
+                'ops': adopt + [['loss', 'requested'], ['connect'], ['srvreply', 'rejected'], ['login'],
+                                ['srvreply', 'garbled'], ['login'], ['srvreply', 'accepted'], ['login'], ['exec']] + END})
+    # stop() with a parent and children: every peer connection is closed, nothing is left
+    out.append({'kind': 'dist-stop-with-peers', 'cfg': _base_cfg(),
+                'ops': adopt + [['child'], ['child'], ['tick', 2], ['stop'], ['ploss'], ['closs'], ['child'],
+                                ['tick', HOUR_TICKS]]})
+    out.append({'kind': 'dist-stop-with-peers-no-session', 'cfg': _base_cfg(),
+                'ops': adopt + [['child'], ['loss', 'read_error'], ['tick', 4]] + END})
+    # the application adds files and scans again — with a session (reported at once), without one (nothing can be
+    # reported): every later login reports the index as it is then; also without a scan at start()
+    for kw, tag in (({}, ''), ({'scan': False}, '-no-scan-at-start'), ({'fpd': 0}, '-empty-dirs'), ({'ndirs': 2}, '-two-dirs')):
+        out.append({'kind': 'index-rescan-relogin' + tag, 'cfg': _base_cfg(**kw),
+                    'ops': [['start'], ['login'], ['rescan', 2], ['loss', 'read_error'], ['tick', 22], ['exec'],
+                            ['loss', 'timeout'], ['rescan', 3], ['tick', 22], ['loss', 'requested'], ['rescan', 5],
+                            ['connect'], ['login']] + END})
+    out.append({'kind': 'index-rescan-before-first-login', 'cfg': _base_cfg(reconnect=False),
+                'ops': [['start'], ['rescan', 1], ['login'], ['loss', 'requested'], ['connect'], ['login']] + END})
+    # the keep-alive (5 min) and the peers' read timeouts (60 s) with a talking parent
+    out.append({'kind': 'dist-long-idle', 'cfg': _base_cfg(),
+                'ops': adopt + [['child'], ['tick', 601], ['loss', 'read_error'], ['tick', 200], ['exec']] + END})
+    return out
+
+
+def _dist_pre(reconnect_by: str) -> list:
+    """history before a re-login with a surviving parent and a child"""
+    pre = [['start'], ['login'], ['parent', 'par0', 3, 'rootuser'], ['child']]
+    if reconnect_by == 'app':
+        return pre + [['loss', 'requested'], ['connect']]
+    return pre + [['srvreply', 'rejected'], ['loss', 'read_error'], ['tick', 22], ['srvreply', 'accepted']]
+
+
 def _glue(tier: str) -> list[dict]:
     """Monitor-only families (runtime glue the model does not express)."""
     out = []
@@ -1454,6 +1747,9 @@ def _glue(tier: str) -> list[dict]:
 
 def _sweeps(tier: str) -> list[dict]:
     out = _glue(tier) + _break_sweep(_base_cfg(), EVENTS, 'fallback')
+    # a RE-login with a surviving parent and a child, interrupted at every position
+    out += _break_sweep(_base_cfg(reconnect=False), ['timeout', 'reset', 'stop'] if tier == 'quick' else EVENTS,
+                        'relogin-parent', pre=_dist_pre('app'))
     out += _break_sweep(_base_cfg(race=True, reconnect=False), ['stop', 'requested'], 'race-mode')
     out += _race_sweep(_base_cfg(reconnect=False), ['stop'], range(0, 46), 'natural')
     out += _race_sweep(_base_cfg(), ['timeout'], range(0, 46), 'natural')
@@ -1465,6 +1761,7 @@ def _sweeps(tier: str) -> list[dict]:
         out += _break_sweep(_base_cfg(race=True), EVENTS, 'race-mode-full')
         out += _race_sweep(big, EVENTS, range(0, 60), 'natural-big')
         out += _race_sweep(_base_cfg(race=True), ['stop', 'requested', 'eof', 'unknown'], range(0, 46), 'natural-race-mode')
+        out += _break_sweep(_base_cfg(), EVENTS, 'relogin-parent-after-rejected', pre=_dist_pre('watchdog'))
     return out
 
 
@@ -1501,9 +1798,17 @@ class C16(Property):
             'keep-alive (5 min) / the wishlist job on a transport that is still open / already gone (wait_closed() does '
             'not suspend), a slow SessionInitialized listener of the application with loss + reconnect before login() '
             'resumes, 1..4 established incoming peer connections at stop(); '
+            'round 5: logins made with state that SURVIVES from before the login — a distributed parent adopted from '
+            'a potential parent that accepts the connection (levels 0..9, roots other / the parent / the client '
+            'itself), a parent that moves or goes away with and without a session, 0..5 children, the share index '
+            'scanned again by the application — followed by every kind of re-login (watchdog after each unrequested '
+            'reason, manual after EOF / requested, inside the CLOSED event, after rejected / garbled logins, with a '
+            'suspended listener), a break sweep over every position of such a RE-login, stop() with peers; the burst '
+            'of every login is judged against the position and the index the client has at that login; '
             'a case is non-trivial when a session was initialised AND (a loss other than by stop() '
             'occurred OR work was pending at stop() OR a login variant other than accepted was used OR a login was '
-            'interrupted OR a listener was suspended); distinct = distinct canonical case')
+            'interrupted OR a listener was suspended OR a login was made with a distributed parent); distinct = '
+            'distinct canonical case')
     assumptions = [
         'asyncio / CPython semantics are exercised, not modelled; FakeNet stands in for TCP (close feeds EOF to both '
         'readers, reset makes reads and writes fail), SimLoop for time',
@@ -1511,6 +1816,11 @@ class C16(Property):
         'cases the peer would accept 4 s later, after stop()); established peer connections only in the glue-peers '
         'family (incoming, type P, idle); UPnP disabled',
         'the scripted server answers every AddUser at once (no tracking retries) and sends nothing unsolicited',
+        'a distributed peer (parent, child) that is alive sends something at least every 20 s (DistributedPing, which '
+        'the library ignores): the 60 s read timeout of a silent peer connection is not part of the scenarios; a '
+        'potential parent announces itself only after the connect attempt to it has been wrapped up (one '
+        'quiescence later); at most 5 children (the limit before any GetUserStats answer); the server never '
+        'answers GetUserStats',
         'close reasons TIMEOUT and UNKNOWN are injected by calling ServerConnection.disconnect(reason), the call '
         'DataConnection._read/_send make on that path; EOF, READ_ERROR, WRITE_ERROR, REQUESTED, CONNECT_FAILED arise '
         'from the fake network',
@@ -1539,8 +1849,12 @@ class C16(Property):
                 'BackgroundTask / Timer sites, of client.services and of the cancel calls on the shutdown paths). '
                 'Exercised but not modelled: transfers (no transfer in the scenarios), peer connections other than a '
                 'pending potential-parent / search-reply connect to an unreachable peer (both connect modes), UPnP, tracking '
-                'retries, a distributed parent at '
-                'login time (model only)')
+                'retries. Round 5, modelled: the distributed parent (name, announced root and level) and the number of '
+                'children as state that a loss of the server connection leaves alone and stop() clears; '
+                'DistributedNetwork._on_potential_parents / _check_if_new_parent / _set_parent (cancels the pending '
+                'candidates) / _on_distributed_branch_level / _on_distributed_branch_root / _unset_parent / '
+                '_check_if_new_child / _notify_server_of_parent (only with a session); SharesManager.scan -> '
+                'report_shares; ghost `told` = what the current server connection was told last')
 
     def regenerate(self):
         from translate import task_sites
@@ -1550,7 +1864,8 @@ class C16(Property):
         res = KResult()
         rng = random.Random(f'C16-{seed}')
         n = (600 if tier == 'quick' else 5000) * widen
-        cases = list(DIRECTED) + [WITNESS_RESIDUAL] + list(HELD) + _sweeps(tier) + [_gen_case(rng) for _ in range(n)]
+        cases = (list(DIRECTED) + [WITNESS_RESIDUAL] + list(HELD) + _dist_cases() + _sweeps(tier)
+                 + [_gen_case(rng) for _ in range(n)])
         impl = common.parallel_map(_eval_case, cases, chunksize=4)
         model = None
         if model_ok:
@@ -1583,6 +1898,11 @@ class C16(Property):
                     stopped = True
                 if int(row['init']):
                     feats.add('session')
+                    if row.get('par', '-') != '-' and row['s'] == '1':
+                        feats.add('parent-at-login')
+                        res.count('login-with-parent:' + ('watchdog' if op[0] == 'tick' else op[0]))
+                    if int(row.get('kids', '0')) and row['s'] == '1':
+                        res.count('login-with-children')
                 if op[0] in ('loss', 'lossheld', 'lossrec'):
                     feats.add('loss')
                     res.count('loss:' + op[1])
@@ -1620,7 +1940,8 @@ class C16(Property):
             for f in feats:
                 res.count('feature:' + f)
             if 'session' in feats and feats & {'loss', 'pending-at-stop', 'login-variant', 'burst-cut', 'burst-break',
-                                               'held-listener'}:
+                                               'held-listener', 'parent-at-login'}:    # (rule text: "... OR a
+                # login was made with a distributed parent")
                 res.nontrivial_keys.add(common.sha([c['cfg'], c['ops']]))
             if model is not None and model[i] is not None:
                 res.traces_validated += 1
